@@ -26,7 +26,8 @@ LOCSETS = {
     '1d4': [{}, {'wght': 1.0}, {'wght': 0.5}, {'wght': -1.0}],
     '2d4': [{}, {'wght': 1.0}, {'wdth': 1.0}, {'wght': 1.0, 'wdth': 1.0}],
     '2d5': [{}, {'wght': 1.0}, {'wdth': 1.0}, {'wght': 1.0, 'wdth': 1.0}, {'wght': 0.5, 'wdth': 0.5}],
-    '1d4u': [{}, {'wght': 0.25}, {'wght': 0.75}, {'wght': 1.0}],          # masters listed out of sorted order below via `order`
+    '1d4u': [{}, {'wght': 0.25}, {'wght': 0.75}, {'wght': 1.0}],
+    '1d5': [{}, {'wght': 0.25}, {'wght': 0.5}, {'wght': 0.75}, {'wght': 1.0}],          # masters listed out of sorted order below via `order`
 }
 
 
@@ -81,7 +82,8 @@ def sparse_masters_reproduced(locs, present, order):
         bounds='the chain the build uses for advances, metrics and anchors: master values (SYMBOLIC integers) -> VariationModel.getDeltas with rounding -> '
                'ItemVariationStore (OnlineVarStoreBuilder) -> VarStoreInstancer at each master location: default + variation is within 1/2 unit of that '
                'master, for 1-2 value rows sharing the store',
-        quick=[dict(locs='1d3', rows=1), dict(locs='2d4', rows=1), dict(locs='1d4', rows=2)], thorough=[dict(locs=l, rows=r) for l in ('1d3', '1d4', '2d4', '2d5') for r in (1, 2)],
+        quick=[dict(locs='1d3', rows=1), dict(locs='2d4', rows=1), dict(locs='1d4', rows=2), dict(locs='1d4u', rows=1), dict(locs='1d5', rows=1)],
+        thorough=[dict(locs=l, rows=r) for l in ('1d3', '1d4', '2d4', '2d5', '1d4u', '1d5') for r in (1, 2)],
         max_paths=100000, collide=True)
 def store_chain_reproduces_masters(locs, rows):
     from fontTools.ttLib.tables._f_v_a_r import Axis
@@ -167,3 +169,31 @@ def merger_pair_lookup_follows_the_lookup_rule(shape):
             want = pair_lookup(subs, g1, g2)[0]
             conds.append(conj([eq(x, y) for x, y in zip(got, want)]))
     ob('effective-pair-value', conj(conds))
+
+
+@kernel('C10', funcs=['designspaceLib/__init__.py:SourceDescriptor.getFullDesignLocation', 'designspaceLib/__init__.py:AxisDescriptor.map_forward', 'varLib/models.py:piecewiseLinearMap'],
+        bounds='a source that leaves out an axis whose user->design map (3 symbolic knots, the default a knot) moves the default: its full design location puts '
+               'that axis at the DESIGN value of the axis default (map_forward(default)), and keeps explicit coordinates as given',
+        shims=['dict keyed by symbolic reals: collide mode'], quick=[dict(d=0), dict(d=1)], thorough=[dict(d=d) for d in (0, 1, 2)], collide=True)
+def omitted_axis_defaults_in_design_space(d):
+    us = [V.real('user%d' % i, 0, 1000) for i in range(3)]
+    ds = [V.real('design%d' % i, 0, 1000) for i in range(3)]
+    for a, b in zip(us, us[1:]):
+        assume(lt(a, b))
+    for a, b in zip(ds, ds[1:]):
+        assume(lt(a, b))
+    wght = DS.AxisDescriptor()
+    wght.name, wght.tag = 'Weight', 'wght'
+    wght.minimum, wght.default, wght.maximum = us[0], us[d], us[-1]
+    wght.map = list(zip(us, ds))
+    wdth = DS.AxisDescriptor()
+    wdth.name, wdth.tag = 'Width', 'wdth'
+    wdth.minimum, wdth.default, wdth.maximum = 50, 100, 200
+    doc = DS.DesignSpaceDocument()
+    doc.axes = [wght, wdth]
+    src = DS.SourceDescriptor()
+    w = V.real('width', 50, 200)
+    src.designLocation = {'Width': w}
+    loc = src.getFullDesignLocation(doc)
+    ob('omitted-axis-at-design-default', eq(loc['Weight'], ds[d]))
+    ob('explicit-axis-kept', eq(loc['Width'], w))
